@@ -99,6 +99,14 @@ inductive Rid where
   | group (n : Nat)
   deriving DecidableEq, Repr
 
+/-- an argument of `PythonJob.call` after Python evaluated it: a resource, a list / dict of resources, or a plain value -/
+inductive PyArgR where
+  | res (r : Rid)
+  | list (rs : List Rid)
+  | dict (kvs : List (Str × Rid))
+  | value (v : Str)
+  deriving DecidableEq, Repr
+
 structure JobSt where
   dirname : Str
   /-- `_resources`: attribute name → resource -/
@@ -113,9 +121,11 @@ structure JobSt where
   commands : List Str
   /-- a `PythonJob` (else a `BashJob`) -/
   python : Bool := false
+  /-- `_function_calls`: the (resolved) arguments of every `call` -/
+  calls : List (List PyArgR) := []
   deriving Repr
 
-def JobSt.empty (dirname : Str) (python : Bool := false) : JobSt := ⟨dirname, [], [], [], [], [], [], [], [], python⟩
+def JobSt.empty (dirname : Str) (python : Bool := false) : JobSt := ⟨dirname, [], [], [], [], [], [], [], [], python, []⟩
 
 structure St where
   /-- `_resource_map`, file part: number ↦ object (creation order) -/
@@ -280,6 +290,14 @@ inductive Piece where
   | ref (r : Ref)
   deriving DecidableEq, Repr
 
+/-- an argument expression of `PythonJob.call` -/
+inductive PyArg where
+  | res (r : Ref)
+  | list (rs : List Ref)
+  | dict (kvs : List (Str × Ref))
+  | value (v : Str)
+  deriving DecidableEq, Repr
+
 inductive Stmt where
   /-- `b.read_input(path)` -/
   | input (path : Str)
@@ -298,7 +316,7 @@ inductive Stmt where
   /-- `b.new_python_job(name)` -/
   | pyjob (name : Option Str)
   /-- `j.call(f, *args)` on a PythonJob with resource arguments -/
-  | pycall (j : Nat) (args : List Ref)
+  | pycall (j : Nat) (args : List PyArg)
   deriving Repr
 
 def token (n : Nat) : Str := ['t', 'k'] ++ Nat.toDigits 10 n
@@ -387,6 +405,35 @@ def resolveAll (st : St) : List Ref → Except Err (St × List Rid)
       match resolveAll st1 rs with
       | .error e => .error e
       | .ok (st2, rids) => .ok (st2, rid :: rids)
+
+def resolveArg (st : St) : PyArg → Except Err (St × PyArgR)
+  | .res r => match resolve st r with
+    | .error e => .error e
+    | .ok (st1, rid) => .ok (st1, .res rid)
+  | .list rs => match resolveAll st rs with
+    | .error e => .error e
+    | .ok (st1, rids) => .ok (st1, .list rids)
+  | .dict kvs => match resolveAll st (kvs.map (·.2)) with
+    | .error e => .error e
+    | .ok (st1, rids) => .ok (st1, .dict ((kvs.map (·.1)).zip rids))
+  | .value v => .ok (st, .value v)
+
+def resolveArgs (st : St) : List PyArg → Except Err (St × List PyArgR)
+  | [] => .ok (st, [])
+  | a :: as =>
+    match resolveArg st a with
+    | .error e => .error e
+    | .ok (st1, ar) =>
+      match resolveArgs st1 as with
+      | .error e => .error e
+      | .ok (st2, ars) => .ok (st2, ar :: ars)
+
+/-- the resources `handle_args` visits, in order (lists element by element, dicts value by value) -/
+def PyArgR.rids : PyArgR → List Rid
+  | .res r => [r]
+  | .list rs => rs
+  | .dict kvs => kvs.map (·.2)
+  | .value _ => []
 
 /-- `handle_args(args)` of `PythonJob.call`: `handle_arg` is the bookkeeping of the command handler (`applyRef`) without a
 replacement text.  (The `PythonResult` the call creates only enters the job's own `_valid`/`_mentioned`; it is not modelled.) -/
@@ -480,9 +527,12 @@ def step (st : St) : Stmt → Except Err St
                   job := fun k => if k = j then JobSt.empty (jobDirname name tok) true else st.job k }
   | .pycall j args =>
     if j < st.nJobs ∧ (st.job j).python then
-      match resolveAll st args with
+      match resolveArgs st args with
       | .error e => .error e
-      | .ok (st1, rids) => applyRefs st1 j rids
+      | .ok (st1, argsR) =>
+        match applyRefs st1 j (argsR.map PyArgR.rids).flatten with
+        | .error e => .error e
+        | .ok st2 => .ok (st2.updJob j fun js => { js with calls := js.calls ++ [argsR] })
     else .error .notDsl
   | .out r dest =>
     match resolve st r with
@@ -541,6 +591,36 @@ def jobPlan (st : St) (remote loc : Str) (j : Nat) : JobPlan :=
       (js.externalOut.map (copyExternalOutput st loc)).flatten
     parents := js.deps
     symlinks := (js.mentioned.map (symlinksOf st loc)).flatten }
+
+/-! ### what a PythonJob's function is handed (`PythonJob._compile`, `preserialize`) -/
+
+/-- `('path', r._get_path(local_tmpdir))` for a file; for a group `('dict_path', {identifier: member._get_path(local_tmpdir)})` —
+every member is asked for *its own* path -/
+inductive Prepared1 where
+  | path (p : Str)
+  | dictPath (kvs : List (Str × Str))
+  deriving DecidableEq, Repr
+
+inductive Prepared where
+  | one (p : Prepared1)
+  | list (ps : List Prepared1)
+  | dict (kvs : List (Str × Prepared1))
+  | value (v : Str)
+  deriving DecidableEq, Repr
+
+def prepare1 (st : St) (loc : Str) : Rid → Prepared1
+  | .file n => .path (st.path loc (.file n))
+  | .group g => .dictPath (((st.group? g).map fun gr => gr.members.map fun m => (m.1, st.path loc (.file m.2))).getD [])
+
+def prepare (st : St) (loc : Str) : PyArgR → Prepared
+  | .res r => .one (prepare1 st loc r)
+  | .list rs => .list (rs.map (prepare1 st loc))
+  | .dict kvs => .dict (kvs.map fun kv => (kv.1, prepare1 st loc kv.2))
+  | .value v => .value v
+
+/-- the pickled positional arguments of every call of job `j` -/
+def preparedCalls (st : St) (loc : Str) (j : Nat) : List (List Prepared) :=
+  (st.job j).calls.map fun args => args.map (prepare st loc)
 
 /-- `write_external_inputs`: input files that are themselves written out -/
 def externalInputs (st : St) : List (Str × Str) :=
